@@ -1,6 +1,6 @@
 (* C14 — statements only.  Each closed by [exact] of a lemma from Comb/Topology_proofs.v. *)
 From Coq Require Import List Arith ZArith NArith Bool Permutation.
-From TFV Require Import Comb.Topology Comb.Topology_proofs Comb.Topology_n7.
+From TFV Require Import Comb.Topology Comb.Topology_proofs Comb.Topology_le7.
 Import ListNotations.
 
 (* (2n-3)!! chains for n final particles - ALL n >= 1 (unbounded).
